@@ -265,7 +265,8 @@ def complete(job, runid, target, timing, status):
         job.get('doing').remove(target)
 
     if not (job.get('todo') or job.get('doing')):
-        que.remove(job)
+        if job in que:
+            que.remove(job)
         job.set('status', State.waiting)
         pass
 
@@ -354,6 +355,11 @@ def defer():
 def find(job) -> dawgie.pl.dag.Node:
     jobid = job if isinstance(job, str) else job.tab
     avail = list(filter(lambda j: j.tag == jobid, que))
+    if not avail and dawgie.pl.schedule.ae is not None:
+        # the node may already have left the queue while a unit of it was
+        # still executing (its target was purged); its reply must be applied
+        for root in dawgie.pl.schedule.ae.at:
+            avail.extend(root.locate(jobid))
     return avail[0]
 
 
